@@ -54,6 +54,10 @@ def crystal_library():
                                      0.5 * a([[0., 1., 1.], [1., 0., 1.], [1., 1., 0.]])), [a([0., 0., 0.])])
     L['fm-hex'] = lambda: _c(a([[1., 0.5, 0.], [0., np.sqrt(0.75), 0.], [0., 0., 1.25]]), [a([0., 0., 0.])], spins=[1])
     L['afm-hex'] = lambda: _c(a([[1., 0.5, 0.], [0., np.sqrt(0.75), 0.], [0., 0., 2.5]]), [a([0., 0., 0.]), a([0., 0., 0.5])], spins=[1, -1])
+    L['bct'] = lambda: _c(a([[-0.5, 0.5, 0.5], [0.5, -0.5, 0.5], [0.8, 0.8, -0.8]]).T, [a([0., 0., 0.])])
+    L['tricl'] = lambda: _c(a([[1., 0.3, 0.2], [0., 1.1, 0.4], [0., 0., 0.9]]), [a([0., 0., 0.])])
+    L['rhomb'] = lambda: _c(a([[1., 0.3, 0.3], [0.3, 1., 0.3], [0.3, 0.3, 1.]]), [a([0., 0., 0.])])
+    L['oblique'] = lambda: _c(a([[1., 0.4], [0., 0.9]]), [a([0., 0.])])
     L['fcc-nosym'] = lambda: _c(0.5 * a([[0., 1., 1.], [1., 0., 1.], [1., 1., 0.]]), [a([0., 0., 0.])], NOSYM=True)
     L['hcp-nosym'] = lambda: _c(a([[0.5, 0.5, 0.], [-np.sqrt(0.75), np.sqrt(0.75), 0.], [0., 0., np.sqrt(8. / 3.)]]),
                                 [a([1. / 3, 2. / 3, 0.25]), a([2. / 3, 1. / 3, 0.75])], NOSYM=True)
